@@ -25,7 +25,8 @@ type posCase struct {
 	File  string                 `json:"file"`
 	Lo    int                    `json:"lo"`
 	Hi    int                    `json:"hi"`
-	Node  int                    `json:"node"`
+	Node    int                    `json:"node"`
+	Allowed []int                  `json:"allowed"`
 }
 
 func errPosCfg(dev string, emit bool) string {
@@ -47,7 +48,7 @@ func runRenderHalf(ctx *core.Ctx) {
 		return
 	}
 	caught := map[string]bool{}
-	for _, dev := range []string{"innermost_frame_line", "callee_file", "line_from_other_source"} {
+	for _, dev := range []string{"innermost_frame_line", "callee_file", "line_from_other_source", "call_node_not_restored"} {
 		r, err := ctx.RunTLC(core.TLCOpts{Module: "SoyErrPos", Cfg: errPosCfg(`"`+dev+`"`, false), Workers: 4, Timeout: 5 * time.Minute, Label: "errpos-deviation-" + dev})
 		if err != nil {
 			ctx.ToolError("%v", err)
@@ -80,9 +81,13 @@ func runRenderHalf(ctx *core.Ctx) {
 
 func replayRender(ctx *core.Ctx, pc *posCase) {
 	files := []core.File{{Name: "entry.soy", Text: strings.Join(pc.Entry, "\n") + "\n"}, {Name: "lib.soy", Text: strings.Join(pc.Lib, "\n") + "\n"}}
-	feat := fmt.Sprintf("w1=%v,w2=%v,fail=%v,depth=%v", pc.D["w1"], pc.D["w2"], pc.D["f"], pc.D["depth"])
+	feat := fmt.Sprintf("w1=%v,w2=%v,fail=%v,depth=%v,call=%v", pc.D["w1"], pc.D["w2"], pc.D["f"], pc.D["depth"], pc.D["shape"])
+	allowed := map[int]bool{}
+	for _, l := range pc.Allowed {
+		allowed[l] = true
+	}
 	ctx.AddEvals(1)
-	rep := map[string]interface{}{"half": "render", "files": files, "allowedLines": []int{pc.Lo, pc.Hi}, "desc": pc.D}
+	rep := map[string]interface{}{"half": "render", "files": files, "allowedLines": pc.Allowed, "desc": pc.D}
 	comp, err, _ := core.Compile(files, nil)
 	if err != nil {
 		ctx.ToolError("render layout does not compile (%s): %v\n%s", feat, err, files[0].Text)
@@ -107,13 +112,16 @@ func replayRender(ctx *core.Ctx, pc *posCase) {
 	case fp.File() != pc.File:
 		ctx.Violation(core.Sig{Family: "render-error-position", Feature: "wrong-file," + feat},
 			fmt.Sprintf("render error names file %q, the entry template is defined in %q: %s", fp.File(), pc.File, res.Err), rep)
-	case fp.Line() < pc.Lo || fp.Line() > pc.Hi:
+	case !allowed[fp.Line()]:
 		kind := "line-off-path"
+		if fp.Line() >= pc.Lo && fp.Line() <= pc.Hi {
+			kind = "line-of-a-sub-command" // inside the outermost command's extent, but not a command on the path
+		}
 		if fp.Line() > len(pc.Entry) {
 			kind = "line-outside-file"
 		}
 		ctx.Violation(core.Sig{Family: "render-error-position", Feature: kind + "," + feat},
-			fmt.Sprintf("render error reports line %d; the failing command's path is lines %d..%d of %s: %s", fp.Line(), pc.Lo, pc.Hi, pc.File, res.Err), rep)
+			fmt.Sprintf("render error reports line %d; the commands on the failing path start on lines %v of %s: %s", fp.Line(), pc.Allowed, pc.File, res.Err), rep)
 	}
 	if len(ctx.Samples) < 7 {
 		ctx.Sample(rep)
